@@ -183,7 +183,10 @@ Definition add_atom (h : heap) (t : topo) (name elem : string) (r : loc) (serial
            t_numAtoms := S (t_numAtoms t); t_numRes := t_numRes t |}, l).
 
 (* add_bond(atom1, atom2, type, order): the atom with the smaller index comes first *)
+Definition order_ok (ord : option nat) : bool :=     (* Bond.__new__: order is None or 1 <= order <= 3 *)
+  match ord with Some n => (1 <=? n) && (n <=? 3) | None => true end.
 Definition add_bond (h : heap) (t : topo) (a1 a2 : loc) (ty : option btype) (ord : option nat) : option topo :=
+  if negb (order_ok ord) then None else
   x1 <- get_a h a1 ;;
   x2 <- get_a h a2 ;;
   let b := if a_index x1 <? a_index x2 then {| b_a1 := a1; b_a2 := a2; b_type := ty; b_order := ord |}
@@ -585,3 +588,10 @@ Definition hash_keys (fl : flags) (h : heap) (t : topo) : option (list hkey) :=
               KBonds (map bond4 (sort_by (fun x y => key_leb (bond_key x) (bond_key y)) (vt_bonds v)));
               KNames (map vr_name (v_residues v))]
         else [KInts (map vc_index (vt_chains v)); KInts ai; KBonds (map bond4 (vt_bonds v)); KRes rs]).
+
+(* ------------------------------------------------------------------ what a topology can reach *)
+(* every location a chain-wise walk, top.atom(i)/top.residue(i)/top.chain(i) or a bond can hand out *)
+Definition bond_ends (t : topo) : list loc := concat (map (fun b => [b_a1 b; b_a2 b]) (t_bonds t)).
+Definition reach (h : heap) (t : topo) : list loc :=
+  t_chains t ++ t_residues t ++ chainwise_residues h (t_chains t) ++ t_atoms t ++ chainwise_atoms h (t_chains t) ++
+  bond_ends t.
